@@ -124,7 +124,7 @@ func lemmaKeysKeptApart(a, b string) (string, string) { return rKey(a), rKey(b) 
 //@ func (c *client) Create(ctx context.Context, record kvs.Record) (string, error)
 //@   props C02 C03 C06
 //@   requires c != nil && c.rdb != nil
-//@   modifies issued, clock, redisGets, encHas, encAt, encExpiring, encKey, encVer, rwkey, nsetnx, nset, nmset, ndel, ntxset, setnxWon, lastIntOK, lastInt
+//@   modifies issued, clock, redisGets, encHas, encAt, encExpiring, encKey, encVer, rwval, rwkey, nsetnx, nset, nmset, ndel, ntxset, setnxWon, lastIntOK, lastInt
 //@   ensures r1 == nil ==> !in(r0, old(issued)) && r0 != ""
 // [C02] "of several racing creators exactly one succeeds", the client's half: the only write command of Create is one
 // SETNX for the record's key, and Create succeeds only if the server answered that this SETNX did set the key
@@ -133,6 +133,8 @@ func lemmaKeysKeptApart(a, b string) (string, string) { return rKey(a), rKey(b) 
 // [C03]/[C06] what the SETNX carries is the record given - its key, its expiry - under the version handed back
 //@   ensures [C03] given: nsetnx == old(nsetnx) + 1 ==> encKey == record.Key && encHas == (record.ExpiresAt != nil) && (record.ExpiresAt != nil ==> encAt == *record.ExpiresAt)
 //@   ensures [C03] given: r1 == nil ==> encVer == r0
+// ... and the bytes the SETNX carried hold exactly the record given, under the version handed back
+//@   ensures [C03] sent: r1 == nil ==> holdsRec(rwval, record.Key, r0, record.Value, record.ExpiresAt)
 //@   ensures [C03] errexist: r1 == errors.ErrExist ==> nsetnx == old(nsetnx) + 1 && !setnxWon
 //@   ensures [C03] errexist: r1 != nil ==> r1 == errors.ErrExist || r1 == errors.ErrNotExist || !isClass(r1)
 // [C03] "Create fails with ErrExist and reports the stored version": the stored record is looked up, and a version
@@ -143,18 +145,19 @@ func lemmaKeysKeptApart(a, b string) (string, string) { return rKey(a), rKey(b) 
 //@ func (c *client) Put(ctx context.Context, record kvs.Record) (kvs.Record, error)
 //@   props C02 C03 C06
 //@   requires c != nil && c.rdb != nil
-//@   modifies issued, clock, encHas, encAt, encExpiring, encKey, encVer, rwkey, nsetnx, nset, nmset, ndel, ntxset, setnxWon, lastIntOK, lastInt
+//@   modifies issued, clock, encHas, encAt, encExpiring, encKey, encVer, rwval, rwkey, nsetnx, nset, nmset, ndel, ntxset, setnxWon, lastIntOK, lastInt
 //@   ensures !in(r0.Version, old(issued)) && forall(v, string, in(v, old(issued)) ==> in(v, issued))
 // [C03] "Put stores what was given under a new version": one SET for the record's key, the record handed back is the
 // one given but for the version
 //@   ensures nset == old(nset) + 1 && nsetnx == old(nsetnx) && nmset == old(nmset) && ndel == old(ndel) && rwkey == rkeyOf(record.Key)
 //@   ensures [C03] stored: r0.Key == record.Key && r0.ExpiresAt == record.ExpiresAt && r0.Value == record.Value
+//@   ensures [C03] sent: holdsRec(rwval, record.Key, r0.Version, record.Value, record.ExpiresAt)
 //@   ensures given: encKey == record.Key && encVer == r0.Version && encHas == (record.ExpiresAt != nil) && (record.ExpiresAt != nil ==> encAt == *record.ExpiresAt)
 
 //@ func (c *client) PutMany(ctx context.Context, records []kvs.Record) error
 //@   props C02 C03 C06
 //@   requires c != nil && c.rdb != nil
-//@   modifies issued, clock, encHas, encAt, encExpiring, encKey, encVer, rwkey, nsetnx, nset, nmset, ndel, ntxset, setnxWon, lastIntOK, lastInt
+//@   modifies issued, clock, encHas, encAt, encExpiring, encKey, encVer, rwval, rwkey, nsetnx, nset, nmset, ndel, ntxset, setnxWon, lastIntOK, lastInt
 // [C03] the batch goes out either as one MSET (built in the order given) or record by record, in the order given,
 // through Put - never partly one way and partly the other (which would reorder writes to a repeated key)
 //@   ensures [C03] order: (nmset == old(nmset) || nset == old(nset)) && nmset <= old(nmset) + 1 && nsetnx == old(nsetnx) && ndel == old(ndel)
@@ -174,6 +177,7 @@ func lemmaKeysKeptApart(a, b string) (string, string) { return rKey(a), rKey(b) 
 // [C03]/[C06] "CasByVersion stores what was given under a new version": the record encoded for the SET has the caller's
 // key and the caller's expiry (none iff the caller gave none), and the new version
 //@   ensures given: r0 == nil ==> encKey == old(record.Key) && encVer == record.Version && encHas == (old(record.ExpiresAt) != nil) && (old(record.ExpiresAt) != nil ==> encAt == *old(record.ExpiresAt))
+//@   ensures [C03] sent: r0 == nil ==> holdsRec(rwval, old(record.Key), record.Version, old(record.Value), old(record.ExpiresAt))
 //@   ensures given: record.Key == old(record.Key) && record.ExpiresAt == old(record.ExpiresAt) && record.Value == old(record.Value)
 
 // [C03] "Get returns the last written key, value, version": what Get hands out was decoded from a value read for the
